@@ -7,6 +7,8 @@ import (
 	"strconv"
 	"strings"
 
+	"golang.org/x/tools/go/packages"
+
 	"verif.local/gcsim/simapi"
 	"verif.local/gcsim/simrt"
 )
@@ -200,6 +202,7 @@ type CLIOutcome struct {
 	Map         simrt.MapStats
 	Races       int
 	RaceText    string
+	Attributed  bool // records carry the index of the visit that printed them
 	Decisions   []simrt.Decision
 }
 
@@ -217,31 +220,20 @@ func (w *Worker) execCLI(args []string, visits []simapi.Visit, v *simapi.Variant
 	if v.Twin {
 		corpus = w.refCorpus()
 	}
-	h, err := w.hooks.New(args, corpus.Fset, corpus.Sizes)
-	if err != nil {
-		out.InitErr = err.Error()
-		out.Records = append([]logRecord(nil), w.sink.records...)
-		out.Map = simrt.TakeMapStats()
-		return out
-	}
-	out.Checkers = w.hooks.CheckerNames(h)
-	if w.afterInit != nil {
-		w.afterInit() // the front-end's own configuration writes are done; checkers have not run yet
-	}
-	race0 := raceErrors()
-	if v.Sched != nil {
-		out.SchedOn = true
-		simrt.Start(v.Sched)
-	}
-	for i, vis := range visits {
+	var pkgs []*packages.Package
+	for _, vis := range visits {
 		cp := corpus.Pkgs[vis.Pkg]
 		if cp == nil {
 			panic("visit of unknown package " + vis.Pkg)
 		}
-		w.sink.visit = i
-		w.hooks.CheckPackage(h, cp.ViewPermuted(vis.Files, vis.DeclSeed))
+		pkgs = append(pkgs, cp.ViewPermuted(vis.Files, vis.DeclSeed))
 	}
+	race0 := raceErrors()
 	if v.Sched != nil {
+		out.SchedOn = true
+	}
+	fe := w.runFrontEnd(args, corpus, pkgs, v.Sched, w.afterInit)
+	if simrt.Active() {
 		simrt.Drain()
 		out.Sched = simrt.Stop()
 		if keepDecisions {
@@ -252,9 +244,24 @@ func (w *Worker) execCLI(args []string, visits []simapi.Visit, v *simapi.Variant
 	if out.Races > 0 {
 		out.RaceText = w.readNewRaceLog()
 	}
-	out.FoundIssues = w.hooks.FoundIssues(h)
 	out.Records = append([]logRecord(nil), w.sink.records...)
 	out.Map = simrt.TakeMapStats()
+	out.Checkers = w.parseWorkload(args).Checkers
+	out.Attributed = fe.Attributed
+	switch {
+	case fe.LoaderTypeErr != "":
+		out.InitErr = "gcsim: the front-end calls a package loader of a type the driver does not serve: " + fe.LoaderTypeErr
+	case fe.Fatal != "":
+		out.InitErr = fe.Fatal
+		// the fatal message was also printed; it is not a diagnostic record
+		if n := len(out.Records); n > 0 && strings.TrimRight(out.Records[n-1].Text, "\n") == fe.Fatal {
+			out.Records = out.Records[:n-1]
+		}
+	case fe.Err != "":
+		out.InitErr = fe.Err
+	default:
+		out.FoundIssues = fe.Exit != 0
+	}
 	return out
 }
 
